@@ -25,6 +25,9 @@ func leafForms() []int {
 	if rtParam("LEAVES") == 3 {
 		return []int{lfEqStr}
 	}
+	if rtParam("LEAVES") == 6 {
+		return []int{lfBare}
+	}
 	if rtParam("LEAVES") == 4 { // the full alphabet plus the forms the JSON clauses name
 		all := make([]int, 0, lfCount+4)
 		for i := 0; i < lfCount; i++ {
